@@ -21,7 +21,7 @@ EXPLANATION = (
     'channel responder is subscribed before its first frame is dispatched; (d) stop_all_streams iterates a snapshot '
     'of the table and removes each entry in the iteration that failed it. Not decided: the behaviour over all peer '
     'histories and schedules beyond what these typestates imply.')
-EXPLANATION_ADDED = ("(e) resolved at least once: every exit of the client's reconnect listener fails the streams still registered and close() cancels that task; nothing unprotected precedes stop_all_streams() in the close sequence; the library's own sent-futures obey the same done() guard; resolve sites include set_result/set_exception taken as a value and called through a helper. Every exit of the receiver (EOF, transport error, cancellation) reaches the close sequence that fails the pending requests (shared C11.a). The awaitable collector releases its waiter on the completing element, on_complete and on_error, and run() raises the kept error or returns the collection (shared C01.h).")
+EXPLANATION_ADDED = ("(e) resolved at least once: every exit of the client's reconnect listener fails the streams still registered and close() cancels that task; nothing unprotected precedes stop_all_streams() in the close sequence; the library's own sent-futures obey the same done() guard; resolve sites include set_result/set_exception taken as a value and called through a helper. Every exit of the receiver (EOF, transport error, cancellation) reaches the close sequence that fails the pending requests (shared C11.a). The awaitable collector releases its waiter on the completing element, on_complete and on_error, and run() raises the kept error or returns the collection (shared C01.h). (C07.e) Typestate of the generator-backed publishers by re-entry: in every state the delivering task can end in after the completing element, a further request(n) starts no new delivering task, so the subscriber gets nothing after its terminal signal.")
 EXPLANATION = EXPLANATION.replace(' Not decided', ' ' + EXPLANATION_ADDED + ' Not decided', 1) \
     if ' Not decided' in EXPLANATION else EXPLANATION + ' ' + EXPLANATION_ADDED
 ASSUMPTIONS = COMMON_ASSUMPTIONS + [
@@ -367,4 +367,11 @@ def rule_e(ctx):
     check_guarded_resolve(ctx, 'C09.e', only_module={'rsocket.rsocket_base'})
 
 
-RULES = [('C07.a', rule_a), ('C07.b', rule_b), ('C07.c', rule_c), ('C07.d', rule_d), ('C11.h+C11.b+C09.e+C11.a+C01.h', rule_e)]
+def rule_genpub(ctx):
+    """A completed generator-backed publisher does not start delivering again on a late request(n) (typestate by
+    re-entry, rules/genpublisher.py)."""
+    from .genpublisher import rule_completed_publisher_stays_completed
+    rule_completed_publisher_stays_completed(ctx, 'C07.e')
+
+
+RULES = [('C07.a', rule_a), ('C07.b', rule_b), ('C07.c', rule_c), ('C07.d', rule_d), ('C11.h+C11.b+C09.e+C11.a+C01.h', rule_e), ('C07.e', rule_genpub)]
